@@ -653,7 +653,17 @@ def r12_present_page_token_is_decoded(ctx):
     c14.r4_token_wins(Renamed(ctx, "C10.R12", "a page_token parameter that is present is decoded as a token (and refused if it is not one); only its absence selects the first page"), rid="C10.R12")
 
 
-RULES = [("C10.R12", r12_present_page_token_is_decoded), ("C10.R11", r11_undecodable_path_is_refused), ("C10.R10", r_frame_errors_are_errors), ("C10.R9", r9_unreadable_content_type_is_refused), ("C10.R8", r8_registration_guard_is_total), ("C10.R7", r7_numeric_range), ("C10.R6", r6_one_step_decode), ("C10.R1", r1_short_circuit), ("C10.R2", r2_tuples), ("C10.R3", r3_error_class), ("C10.R4", r4_panic_census), ("C10.R5", r5_content_type_gate)]
+def r13_every_named_parameter_is_type_checked(ctx):
+    """`an undecodable path variable or query string gets a 4xx, never a panic`: the flat-string decoder has no error path for non-scalar
+    members (its stubs panic), so registration must have refused them -- for EVERY endpoint, published or not.  These are the parameter
+    clauses of C02.R5, re-evaluated here (adversary change C10-K: validate_named_parameters returned Ok at once for unpublished endpoints,
+    so `Path<(u32, u32)>` on a hidden endpoint panicked the connection task at request time)."""
+    from . import c02
+    from .lib_c01 import Renamed
+    c02.r5_parameter_rules(Renamed(ctx, "C10.R13", "registration accepts an endpoint only after every path / query parameter passed the scalar (or string-array, for wildcards) type check, whatever the endpoint's visibility"))
+
+
+RULES = [("C10.R13", r13_every_named_parameter_is_type_checked), ("C10.R12", r12_present_page_token_is_decoded), ("C10.R11", r11_undecodable_path_is_refused), ("C10.R10", r_frame_errors_are_errors), ("C10.R9", r9_unreadable_content_type_is_refused), ("C10.R8", r8_registration_guard_is_total), ("C10.R7", r7_numeric_range), ("C10.R6", r6_one_step_decode), ("C10.R1", r1_short_circuit), ("C10.R2", r2_tuples), ("C10.R3", r3_error_class), ("C10.R4", r4_panic_census), ("C10.R5", r5_content_type_gate)]
 
 _LOAD_BODY_HV = """            hv.to_str().map_err(|e| {
                 HttpError::for_bad_request(
